@@ -820,7 +820,7 @@ def _pathlengths(repo, col):
     for v, s_ in vals:
         lst = T.find(v, lambda x: x.op == "list" and len(x.args) == 1)
         two_r = lst.args[0] if lst is not None else v
-        if T.find(v, lambda x: x.op == "mcall" and x.name == "sqrt") is None:
+        if T.find(v, lambda x: x.op == "mcall" and x.name in ("sqrt", "norm", "hypot")) is None:
             try:
                 form = term_rat(two_r, lambda x: Rat.atom(f"col{col_of(x)}") if col_of(x) is not None else None)
             except Und:
@@ -832,13 +832,47 @@ def _pathlengths(repo, col):
         form, v, s_ = one
         col.check(form.eq(Rat.const(2) * Rat.atom("col4")), R, fi, "a one-point section has length 2r (sphere of equal area as a cylinder)",
                   "2 * coords[0, 4]", f"the single-point length is {v.short(80)} = {form}: the convention is 2 * radius (column 4)", node=s_.node)
-    # (b) Euclidean distance between consecutive points
-    euc = None
+    # (b) Euclidean distance between consecutive points -- the vectorised spellings first: norm(D[:, 1:4], axis=1), sqrt(sum(D[:, 1:4]**2, axis=1))
+    def cols_of_block(t):
+        """(diff node, {columns}) if t is D[:, a:b] with D = np.diff(.., axis=0)"""
+        if t.op == "sub" and t.args[0].op == "mcall" and t.args[0].name == "diff" and t.args[1].op == "tuple" and len(t.args[1].args) == 2 and \
+                t.args[1].args[1].op == "slice":
+            lo, hi, st = t.args[1].args[1].args
+            if lo.op == "const" and hi.op == "const" and isinstance(lo.name, int) and isinstance(hi.name, int) and (st.op == "const" and st.name in (None, 1)):
+                return t.args[0], set(range(lo.name, hi.name))
+        return None
+    vec = None
     for v, s_ in vals:
+        nm = T.find(v, lambda x: x.op == "mcall" and x.name == "norm" and x.kw.get("axis") is not None and x.kw["axis"].op == "const" and x.kw["axis"].name in (1, -1))
+        if nm is not None:
+            blk = next((cols_of_block(a_) for a_ in nm.args if cols_of_block(a_) is not None), None)
+            if blk is not None and (nm.kw.get("ord") is None or nm.kw["ord"].name == 2):
+                vec = (blk, s_)
+        sq_ = T.find(v, lambda x: x.op == "mcall" and x.name == "sqrt")
+        if sq_ is not None:
+            sm = T.find(sq_, lambda x: x.op == "mcall" and x.name == "sum" and x.kw.get("axis") is not None and x.kw["axis"].op == "const" and x.kw["axis"].name in (1, -1))
+            if sm is not None:
+                pw_ = T.find(sm, lambda x: (x.op == "binop" and x.name == "**" and x.args[1].op == "const" and x.args[1].name == 2) or
+                             (x.op == "mcall" and x.name == "square"))
+                inner = (pw_.args[0] if pw_.op == "binop" else next((a_ for a_ in pw_.args if a_.op != "free"), None)) if pw_ is not None else None
+                blk = cols_of_block(inner) if inner is not None else None
+                if blk is not None:
+                    vec = (blk, s_)
+    if vec is not None:
+        (dn, cs), s_ = vec
+        col.check(cs == {1, 2, 3}, R, fi, "segment length is the Euclidean distance of consecutive traced points (x, y, z columns)",
+                  "Euclidean norm over columns 1, 2, 3", f"the norm is taken over columns {sorted(cs)} (columns are type, x, y, z, radius)", node=s_.node)
+        okd = dn.kw.get("axis") is not None and dn.kw["axis"].op == "const" and dn.kw["axis"].name == 0 and len(dn.args) < 3
+        col.check(okd, R, fi, "differences are taken between consecutive points of the branch", "np.diff(coords_in_branch, axis=0)",
+                  "coordinate differences are not first differences along the point axis", node=s_.node)
+    euc = None
+    for v, s_ in (vals if vec is None else []):
         sq = T.find(v, lambda x: x.op == "mcall" and x.name == "sqrt")
         if sq is not None:
             euc = (sq, s_)
-    if euc is None:
+    if vec is not None:
+        pass
+    elif euc is None:
         col.bad(R, fi, "segment length is the Euclidean distance of consecutive traced points (x, y, z columns)",
                 "no sqrt(...) of coordinate differences is appended", node=fi.node)
     else:
